@@ -6,6 +6,7 @@ import (
 	"strconv"
 	"strings"
 	"syscall"
+	"time"
 )
 
 // Proc is a live (non-zombie) process carrying the scenario tag in its environment.
@@ -66,6 +67,18 @@ func taggedProcs(tag string, skip map[int]bool) []Proc {
 		res = append(res, Proc{Pid: pid, Pgid: pgid, Comm: s[lp+1 : rp], State: f[0], Ppid: ppid})
 	}
 	return res
+}
+
+// taggedProcsSure: "nothing alive" is only believed when three scans a few milliseconds apart agree - the
+// environment of a process that is in the middle of exec reads as empty for a moment (seen under heavy load).
+func taggedProcsSure(tag string) []Proc {
+	for k := 0; ; k++ {
+		ps := taggedProcs(tag, nil)
+		if len(ps) > 0 || k == 2 {
+			return ps
+		}
+		time.Sleep(8 * time.Millisecond)
+	}
 }
 
 // groupAlive probes a process group the way the property talks about it: kill(-pgid, 0).
